@@ -85,6 +85,10 @@ func ParseFile(inputPath string) (areas []textArea, err error) {
 					continue
 				}
 
+				// 没有 tag 的字段(如: X int // see @tag docs)不处理
+				if field.Tag == nil {
+					continue
+				}
 				currentTag := field.Tag.Value
 				area := textArea{
 					Start:      int(field.Pos()),
